@@ -712,6 +712,10 @@ class FermionicArray(AbelianArray):
         axis : int
             The axis to unfuse.
         """
+        if axis < 0:
+            # handle negative axes (the phase bookkeeping needs the position)
+            axis += self.ndim
+
         index = self.indices[axis]
 
         if index.dual:
